@@ -8,10 +8,23 @@ use crate::{
 };
 use fmt::Debug;
 use rusty_pool::ThreadPool;
+#[cfg(not(rs_store_verif))]
 use std::sync::{Arc, Mutex};
+#[cfg(rs_store_verif)]
+use std::sync::Arc;
+#[cfg(rs_store_verif)]
+use verif_rt::sync::Mutex;
+#[cfg(not(rs_store_verif))]
 use std::thread::JoinHandle;
+#[cfg(rs_store_verif)]
+use verif_rt::thread::JoinHandle;
 use std::time::{Duration, Instant};
+#[cfg(not(rs_store_verif))]
 use std::{fmt, thread};
+#[cfg(rs_store_verif)]
+use std::fmt;
+#[cfg(rs_store_verif)]
+use verif_rt::thread;
 
 use crate::iterator::{StateIterator, StateIteratorSubscriber};
 use crate::store::{Store, StoreError, DEFAULT_CAPACITY, DEFAULT_STORE_NAME};
